@@ -1,5 +1,7 @@
 import Rbgp.Fsm.Codec
 import Rbgp.Fsm.Spec
+import Rbgp.Fsm.WireCodec
+import Rbgp.Fsm.WireSpec
 namespace Rbgp.C07
 open Rbgp Rbgp.Term Rbgp.Fsm Rbgp.Fsm.Codec
 
@@ -12,12 +14,24 @@ def verdictStr : Spec.Verdict → String
 def handler (mode : String) (line : String) : String :=
   match mode with
   | "model" =>
+      match (parse line).bind WireCodec.wireCaseOf? with
+      | some (cfg, h) => toStr (WireCodec.wireObsT false (Wire.run cfg h))
+      | none =>
       match (parse line).bind caseOf? with
       | some (cfg, h) => toStr (traceT (run cfg h))
       | none => "(bad-case)"
   | "oracle" =>
       match parseMany line with
       | some [c, o] =>
+          match WireCodec.wireCaseOf? c with
+          | some (cfg, h) =>
+              match WireCodec.wireObsOf? false o with
+              | some tr =>
+                  match WireSpec.check cfg true false h tr with
+                  | .ok => "ok"
+                  | .fail i cl => s!"fail step={i} clause={cl}"
+              | none => "fail step=0 clause=unparsable-observation"
+          | none =>
           match caseOf? c with
           | some (cfg, h) =>
               match traceOf? h o with
